@@ -258,6 +258,7 @@ void Engine::exec_op(const J &op, int task, int idx) {
 		const J &e = op;
 		std::vector<bus::Fault> fs;
 		for (size_t i = 0; i < e["faults"].size(); i++) fs.push_back(bus::fault_from(e["faults"][i]));
+		if (e.has("inj")) bus.fired["stream:" + e.gets("inj")]++;
 		if (e.has("raw")) bus.emit_raw(unhex(e.gets("raw")), (uint64_t) e.geti("delay_us", 0), (uint64_t) e.geti("gap_us", 0), e.geti("split_at", -1), (uint64_t) e.geti("split_gap_us", 0), (int) e.geti("tag", 0));
 		else { int n = bus.find(j_bytes(e["node"])); if (n >= 0 || e.getb("force")) bus.emit(n, (uint8_t) e.geti("type"), j_bytes(e["data"]), fs, (uint64_t) e.geti("delay_us", 0), (int) e.geti("tag", 0)); }
 		return;
@@ -387,6 +388,7 @@ void Engine::run_bus_events(const J &ev) {
 		}
 		std::vector<bus::Fault> fs;
 		for (size_t q = 0; q < e["faults"].size(); q++) fs.push_back(bus::fault_from(e["faults"][q]));
+		if (e.has("inj")) bus.fired["stream:" + e.gets("inj")]++;
 		if (e.has("raw")) bus.emit_raw(unhex(e.gets("raw")), 0, (uint64_t) e.geti("gap_us", 0), e.geti("split_at", -1), (uint64_t) e.geti("split_gap_us", 0), (int) e.geti("tag", 0));
 		else if (e.has("msgs")) {
 			std::vector<ref::Msg> ms;
